@@ -224,7 +224,8 @@ def defs : Defs
                     ifEatIf .Comma (ifAt [.RSquare] (retB false) (retB true)) (retB false)])) nop,
       finishNode, retB true]
   | .slice_element => seqs [startNode .SliceElement, call .value,
-      ifAt [.DotDotDot, .Minus] (seq eat (call .value)) (ifAt [.IntVal] (call .value) nop), finishNode, retB true]
+      ifAt [.DotDotDot, .Minus] (seq eat (call .value)) (ifAt [.IntVal] (seqs [startNode .Value, startNode .InnerValue, call .integer, finishNode, finishNode]) nop),
+      finishNode, retB true]
   | .field_suffix => seqs [startNode .FieldSuffix, assertTok .Dot,
       orError (call .identifier) "expected field identifier after '.'", finishNode, retB true]
   | .simple_value => matchPeek simpleValueArms
